@@ -11,7 +11,8 @@ RULE = ("one event per graph holding the results of every query (fanin fanout tr
         "4096 digraphs on 4 labelled nodes, cyclic ones included), DAG5 (all 1024 DAG shapes on 5 nodes), DAG6 (32768; "
         "thorough, seeded slice in quick) with seeded typing (inputs / constants / blackbox pins / output marks), random "
         "DAGs of 8-14 nodes. Judged by TLC against CGGraph. MCDepth: as-built recursive depth visit under every visiting "
-        "order on all DAG5 graphs. distinct = distinct events; non-trivial = graph has >= 3 edges")
+        "order on all DAG5 graphs. MCPaths: the networkx simple-path search behind Circuit.paths as a machine on every DG4 "
+        "digraph (+ DAG5 in thorough), every s # t, cutoff and visiting order. distinct = distinct events; non-trivial = graph has >= 3 edges")
 
 
 def config(tier):
@@ -19,7 +20,8 @@ def config(tier):
     return {
         "hashseeds": [0] if q else [0, 1, 2, 3],
         "families": ["DG4", "DAG5", "DAG6"],
-        "mc": [{"module": "MCDepth", "cfg": "MCDepth", "workers": 4, "timeout": 1200}],
+        "mc": [{"module": "MCDepth", "cfg": "MCDepth", "workers": 4, "timeout": 1200},
+               {"module": "MCPaths", "cfg": "MCPaths" if q else "MCPathsT", "workers": 4 if q else 12, "timeout": 1200}],
         "shards": 8 if q else 16,
         "negctl": 12,
         "exhaustive": False,
@@ -165,6 +167,24 @@ def _query_event(c, case, ctx, phase):
                 cuts = c.kcuts(n, k)
                 ev["kcuts"].append({"n": idx[n], "k": k, "cuts": [S(cut) for cut in cuts]})
     ev["nontrivial"] = sum(len(f) for f in p["fi"]) >= 3
+    # beyond the statement of C12 (judged as DRIFT clauses only): Circuit.paths and the plain accessors
+    ev["paths"] = []
+    if len(names) <= 9 and len(names) >= 2:
+        for _ in range(4):
+            s_, t_ = rng.sample(names, 2)
+            cutoff = rng.choice([-1, -1, 1, 2, 3])
+            ps = [[idx[x] for x in path] for path in c.paths(s_, t_, cutoff=None if cutoff == -1 else cutoff)]
+            if len(ps) <= 60:
+                ev["paths"].append({"s": idx[s_], "t": idx[t_], "cutoff": cutoff, "ps": ps})
+    from circuitgraph.circuit import supported_types
+
+    ft = []
+    for _ in range(3):
+        ts = rng.sample(sorted(supported_types), rng.choice([1, 1, 2, 4]))
+        arg = ts[0] if len(ts) == 1 and rng.random() < 0.5 else (ts if rng.random() < 0.5 else set(ts))
+        ft.append({"types": sorted(ts), "ns": S(c.filter_type(arg))})
+    ev["acc"] = {"nodes": [idx[x] for x in c.nodes()], "edges": [[idx[u], idx[v]] for u, v in c.edges()], "io": S(c.io()),
+                 "len": int(len(c)), "is_out": [bool(c.is_output(x)) for x in names], "ft": ft}
     return ev
 
 
